@@ -523,6 +523,40 @@ def h_project_values(V, family, N, seed):
                           [bra.factor * V.call(yastn.vdot, V.call(bra.pre_2site, (n, n + 1)), P)], [want])
 
 
+def h_penalty_values(V, family, N, seed, cplx):
+    """
+    Env_project (the penalty of dmrg_'s `project`): Heff1 / Heff2 are  penalty |p><p|  in the frame of the bra -- LINEAR in their
+    argument:  <A|Heff(B)> = penalty <ket[A]|p> <p|ket[B]>  for B taken from a different state (complex data: conjugation on the
+    bra side only), with ket[B] the state whose site(s) are replaced by B; factors of p are dropped in the local form.
+    """
+    import yastn
+    from yastn.tn.mps._env import Env_project
+    ket = make_state(V, family, N, 'a', seed, cplx=cplx)
+    chi = make_state(V, family, N, 'c', seed, cplx=cplx)           # same structure, independent data
+    proj = make_state(V, family, N, 'p', seed + 5, cplx=cplx)
+    sp = ops_of(family).space()
+    pen = V.real('penalty')
+    env = V.call(Env_project, ket, proj, pen)
+    V.call(env.setup_, to='first')
+    V.call(env.setup_, to='last')
+    vk, vp = dense_state(V, ket, sp, with_factor=False), dense_state(V, proj, sp, with_factor=False)
+    conj = cj if cplx else (lambda x: x)
+    for n in range(N):
+        kb = ket.shallow_copy()
+        kb.A[n] = chi.A[n]
+        vb = dense_state(V, kb, sp, with_factor=False)
+        PB = V.call(env.Heff1, V.call(chi.pre_1site, n), n)
+        V.check_equal('<A|Heff1(B)>=penalty<ket|p><p|ket[B]>', [V.call(yastn.vdot, V.call(ket.pre_1site, n), PB)], [pen * (conj(vk) * vp).sum() * (conj(vp) * vb).sum()])
+    for n in range(N - 1):
+        kb = ket.shallow_copy()
+        kb.A[n], kb.A[n + 1] = chi.A[n], chi.A[n + 1]
+        vb = dense_state(V, kb, sp, with_factor=False)
+        for pc in (False, True):
+            PB = V.call(env.Heff2, V.call(chi.pre_2site, (n, n + 1), precompute=pc), (n, n + 1))
+            V.check_equal(f'<AA|Heff2(BB)>=penalty<ket|p><p|ket[BB]>,fused={pc}', [V.call(yastn.vdot, V.call(ket.pre_2site, (n, n + 1), precompute=pc), PB)],
+                          [pen * (conj(vk) * vp).sum() * (conj(vp) * vb).sum()])
+
+
 def h_measure_values(V, family, N, seed):
     """ measure_1site / measure_2site / measure_nsite against Jordan-Wigner matrices """
     import yastn.tn.mps as mps
@@ -591,6 +625,11 @@ def units(tier, which):
                         U.append(('h_env_sum_project_values', lab, p))
                         if which == 'C06' and family != 'spin-dense':
                             U.append(('h_project_values', lab, p))
+                        if which == 'C09' and family != 'spin-dense':
+                            for cplx in (False, True):
+                                if cplx and N > 2:          # N = 3 complex: normal forms out of budget
+                                    continue
+                                U.append(('h_penalty_values', f"{lab},complex={cplx}", dict(p, cplx=cplx)))
                     if N >= 3:
                         for pc in (False, True):
                             for site, to in ((0, 'last'), (N - 1, 'first'), (1, 'last'), (1, 'first')):
